@@ -1,6 +1,6 @@
 //! C14 — Outbound frames are exact and completely delivered, or refused.
 use crate::io::{AdvWriter, WStep};
-use crate::util::{call, fail_panic, Res};
+use crate::util::{call, fail_panic, hexs, Res};
 use engine::{Outcome, Report, Src, Tier};
 use rdp::core::tpkt;
 use rdp::core::x224;
@@ -8,7 +8,7 @@ use rdp::model::link::{Link, Stream};
 use serde::{Deserialize, Serialize};
 
 pub const LEVEL: &str = "fault_enumeration";
-pub const RULE: &str = "case = (entry point Link::write | tpkt::Client::write | x224::Client::write, payload length, writer behaviour = per-call caps / Ok(0) / EINTR schedule, optional hard error injected at byte position p). Oracle against the reference framing F of the payload: bytes accepted by the writer are always a prefix of F; Ok implies all of F was accepted; a writer that never fails and accepts >= 1 byte per call implies Ok; an injected hard error before |F| implies Err; a payload that does not fit the 16-bit TPKT length implies Err with nothing written. boundary-sweep enumerates every length around the 16-bit boundaries and every error position for small frames; all-lengths every payload length 0..=65540 at each entry point with whole and 4096-byte partial writes; sequences and 30 % of the generated cases write several messages through the same client (per message: the bytes the stream accepts during the call are a prefix of that message's frame and all of it iff Ok; an oversized message in between must be refused without a byte; after a transient stream error (one failing call of any io::ErrorKind: BrokenPipe, TimedOut, ConnectionReset ...) the failed message is reported and the next message must again go out as exactly its own frame). Non-trivial = at least one short write, an injected error, or a length within 8 of a 16-bit boundary; distinct by hash of the case.";
+pub const RULE: &str = "case = (entry point Link::write | tpkt::Client::write | x224::Client::write, payload length, writer behaviour = per-call caps / Ok(0) / EINTR schedule, optional hard error injected at byte position p). Oracle against the reference framing F of the payload: bytes accepted by the writer are always a prefix of F; Ok implies all of F was accepted; a writer that never fails and accepts >= 1 byte per call implies Ok; an injected hard error before |F| implies Err; a payload that does not fit the 16-bit TPKT length implies Err with nothing written. mcs-messages / mcs-random: messages handed to a connected mcs::Client (send-data request framing with PER length, initiator and channel), also after the server's disconnect ultimatum was read and around a transient transport error. boundary-sweep enumerates every length around the 16-bit boundaries and every error position for small frames; all-lengths every payload length 0..=65540 at each entry point with whole and 4096-byte partial writes; sequences and 30 % of the generated cases write several messages through the same client (per message: the bytes the stream accepts during the call are a prefix of that message's frame and all of it iff Ok; an oversized message in between must be refused without a byte; after a transient stream error (one failing call of any io::ErrorKind: BrokenPipe, TimedOut, ConnectionReset ...) the failed message is reported and the next message must again go out as exactly its own frame). Non-trivial = at least one short write, an injected error, or a length within 8 of a 16-bit boundary; distinct by hash of the case.";
 
 #[derive(Serialize, Deserialize, Hash, Clone, Debug)]
 pub struct Case {
@@ -139,6 +139,115 @@ pub fn run(c: &Case) -> Outcome {
     out
 }
 
+/// the MCS layer is a transport layer too: messages handed to a connected mcs::Client, also after the client has read the
+/// server's disconnect-provider ultimatum (the session is over then, but a message is either framed and written or refused
+/// with an error, never dropped silently) and around a transient transport error
+#[derive(Serialize, Deserialize, Hash, Clone, Debug)]
+pub struct McsCase {
+    pub lens: Vec<u32>,
+    pub after_ultimatum: bool,
+    /// the transport refuses the write of message #k once (error kind index, 255 = WouldBlock)
+    pub hiccup: Option<(u8, u8)>,
+    pub user_id: u16,
+}
+
+pub fn run_mcs(c: &McsCase) -> Outcome {
+    use crate::mem;
+    use rdp::core::mcs;
+    use refimpl::server::ServerProfile;
+    let mut out = Outcome::new();
+    out.nontrivial(true);
+    out.label("mcs");
+    if c.after_ultimatum {
+        out.label("after-ultimatum");
+    }
+    let profile = ServerProfile::simple(c.user_id, 0x000103EA);
+    let (duplex, h) = mem::new_duplex(profile, None);
+    let tp = tpkt::Client::new(Link::new(Stream::Raw(duplex)));
+    let x = x224::Client::from_transport(tp, x224::Protocols::ProtocolSSL);
+    let mut m = mcs::Client::new(x);
+    let (r, _) = call(|| m.connect("rdp-rs".to_string(), 800, 600, rdp::core::gcc::KeyboardLayout::US));
+    if !r.is_ok() {
+        out.fail("panic:HARNESS-FAULT c14 mcs setup", "mcs.connect against the conforming server failed");
+        return out;
+    }
+    h.borrow_mut().auto_feed = false;
+    if c.after_ultimatum {
+        h.borrow_mut().push(&refimpl::wire::disconnect_provider_ultimatum().bytes);
+        let (r, _) = call(|| m.read().map(|_| ()));
+        if let Res::Panic(p) = r {
+            fail_panic(&mut out, "mcs.read", &p);
+            return out;
+        }
+    }
+    for (k, len) in c.lens.iter().enumerate() {
+        let p = payload(0x4D43 + k as u32, (*len).min(16000));
+        let mut f: Vec<u8> = Vec::new();
+        let mut body = vec![2u8, 0xF0, 0x80, 0x64];
+        body.extend_from_slice(&(c.user_id - 1001).to_be_bytes());
+        body.extend_from_slice(&1003u16.to_be_bytes());
+        body.push(0x70);
+        if p.len() < 0x80 {
+            body.push(p.len() as u8);
+        } else {
+            body.push(0x80 | (p.len() >> 8) as u8);
+            body.push(p.len() as u8);
+        }
+        body.extend_from_slice(&p);
+        let flen = body.len() + 4;
+        f.extend_from_slice(&[3, 0, (flen >> 8) as u8, flen as u8]);
+        f.extend_from_slice(&body);
+        let injected = matches!(c.hiccup, Some((at, _)) if at as usize == k);
+        if let (true, Some((_, kind))) = (injected, c.hiccup) {
+            h.borrow_mut().fail_writes.push(kind);
+        }
+        let before = h.borrow().transcript.len();
+        let (r, _) = call(|| m.write(&"global".to_string(), p.clone()));
+        let got: Vec<u8> = h.borrow().transcript[before..].to_vec();
+        let consumed_injection = injected && h.borrow().fail_writes.is_empty();
+        h.borrow_mut().fail_writes.clear();
+        h.borrow_mut().pending.clear();
+        match r {
+            Res::Panic(pi) => {
+                fail_panic(&mut out, "mcs.write", &pi);
+                return out;
+            }
+            Res::Ok(()) => {
+                if consumed_injection {
+                    out.fail("write:mcs:error-swallowed", format!("message #{}: the transport refused the write but mcs::Client::write returned Ok", k));
+                    return out;
+                }
+                if got != f {
+                    out.fail("write:mcs:ok-but-incomplete", format!("message #{} ({} bytes{}): write returned Ok but {} bytes reached the stream, the frame has {}: {}", k, p.len(), if c.after_ultimatum { ", after the server's disconnect ultimatum was read" } else { "" }, got.len(), f.len(), hexs(&got[..got.len().min(24)])));
+                    return out;
+                }
+            }
+            Res::Err(e) => {
+                if !got.is_empty() && got[..] != f[..got.len().min(f.len())] {
+                    out.fail("write:mcs:not-a-prefix", format!("message #{}: {} bytes written that are not a prefix of its frame", k, got.len()));
+                    return out;
+                }
+                if !consumed_injection && !c.after_ultimatum {
+                    out.fail("write:mcs:spurious-error", format!("message #{}: the stream never failed, yet mcs::Client::write returned Err({})", k, e));
+                    return out;
+                }
+            }
+        }
+    }
+    out
+}
+
+pub fn decode_mcs(s: &mut Src) -> McsCase {
+    let after_ultimatum = s.chance(96);
+    let n = 1 + s.below(5);
+    let lens = (0..n).map(|_| match s.below(5) {
+        0 => s.pick(&[0u32, 1, 0x7F, 0x80, 0x81, 0x3FF, 0x3FFF, 16000]),
+        _ => s.below(600) as u32,
+    }).collect();
+    let hiccup = if s.chance(64) { Some((s.below(n) as u8, s.pick(&[255u8, 0, 1, 2, 5]))) } else { None };
+    McsCase { lens, after_ultimatum, hiccup, user_id: crate::gen::gen_user_id(s) }
+}
+
 fn schedule(s: &mut Src) -> Vec<WStep> {
     match s.below(8) {
         0 => vec![],
@@ -266,6 +375,17 @@ pub fn check(rep: &Report) {
     rep.enumerate("boundary-sweep", false, move |p, n| sweep(tier, p, n), run);
     rep.enumerate("all-lengths", true, all_lengths, run);
     rep.list("sequences", sequences(), run);
+    let mut mc = Vec::new();
+    for after in [false, true] {
+        for uid in [1004u16, 1001, 65535] {
+            mc.push(McsCase { lens: (0..300u32).collect(), after_ultimatum: after, hiccup: None, user_id: uid });
+            mc.push(McsCase { lens: vec![0x7F, 0x80, 0x3FFF, 16000, 5], after_ultimatum: after, hiccup: Some((1, 255)), user_id: uid });
+            mc.push(McsCase { lens: vec![10, 10, 10], after_ultimatum: after, hiccup: Some((0, 1)), user_id: uid });
+        }
+    }
+    rep.list("mcs-messages", mc, run_mcs);
+    rep.random("mcs-random", rep.tier.n(20_000, 1_000_000), 48, decode_mcs, run_mcs);
+    rep.require("mcs-random", "after-ultimatum", 1000);
     rep.random("schedules", rep.tier.n(400_000, 6_000_000), 48, decode, run);
     rep.require("schedules", "short-writes", 1000);
     rep.require("schedules", "injected-error", 1000);
